@@ -141,7 +141,7 @@ of the record of the pieces -/
 theorem fingerprintSplit_class (puny : Str → Str) (trie : SNode Str) (sfx : Bool) {g : UrlG}
     {po : Option Nat} {u : Str} (h : StemClass true g po (lower u)) :
     fingerprintUrlSplit (stringEnv puny id trie) sfx u =
-      fpOfParsed (stringEnv puny id trie) sfx g.proto.hasProto (g.record po) := by
+      (fpOfParsed (stringEnv puny id trie) sfx g.proto.hasProto (g.record po)).map .inr := by
   unfold fingerprintUrlSplit fpOfParsed
   have e : normalizeUrlSplit (stringEnv puny id trie).puny (stringEnv puny id trie).parse
       (stringEnv puny id trie).platform fpOpts true (lower u) =
@@ -158,16 +158,16 @@ both `suffix_aware`, every suffix trie; with `strip_suffix` the host is made of 
 theorem stems_agree_fp (sp : Str → Option (Str × Str)) (puny : Str → Str) (hpc : PunyClean puny)
     (trie : SNode Str) (sa sfx : Bool) {g : UrlG} {po : Option Nat} {u : Str}
     (h : StemClass true g po (lower u)) (hplain : sfx = true → HostPlain g.host) :
-    ∃ t s, fingerprintUrlStringSplit puny id trie sfx u = .ok t ∧
+    ∃ t s, fingerprintUrlStringSplit puny id trie sfx u = .ok (.inr t) ∧
       fingerprintUrlString puny id trie sfx u = .ok s ∧ t.scheme = [] ∧
-      fingerprintedLruStems sp (stringEnv puny id trie) sa sfx u = .ok (stemsOfSplit sp sa t) ∧
+      fingerprintedLruStems sp (stringEnv puny id trie) sa sfx u = .ok (some (stemsOfSplit sp sa t)) ∧
       (lruStemsOfUrl sp modelSplit5 sa s).map (minusScheme t) = some (stemsOfSplit sp sa t) := by
   obtain ⟨H', e0, _, _⟩ := fp_tuple hpc h.good trie sfx hplain
   cases e : fpOfParsed (stringEnv puny id trie) sfx g.proto.hasProto (g.record po) with
   | error err => rw [e] at e0; cases e0
   | ok t =>
-    have ht : fingerprintUrlSplit (stringEnv puny id trie) sfx u = .ok t :=
-      (fingerprintSplit_class puny trie sfx h).trans e
+    have ht : fingerprintUrlSplit (stringEnv puny id trie) sfx u = .ok (.inr t) := by
+      rw [fingerprintSplit_class puny trie sfx h, e]; rfl
     have hs : fingerprintUrl (stringEnv puny id trie) sfx u = .ok (fpString t) := by
       unfold fingerprintUrl; rw [ht]; rfl
     have hr := fp_reparse hpc h.good trie sfx hplain t e
@@ -222,7 +222,7 @@ theorem fingerprinted_stems_factor (sp : Str → Option (Str × Str)) (puny : St
     (hpc : PunyClean puny) (trie : SNode Str) (sa sfx : Bool) {g : UrlG} {po : Option Nat} {u : Str}
     (h : StemClass true g po (lower u)) (hplain : sfx = true → HostPlain g.host) :
     ∃ s st, fingerprintUrlString puny id trie sfx u = .ok s ∧
-      fingerprintedLruStems sp (stringEnv puny id trie) sa sfx u = .ok st ∧
+      fingerprintedLruStems sp (stringEnv puny id trie) sa sfx u = .ok (some st) ∧
       (lruStemsOfUrl sp modelSplit5 sa s).map dropSchemeStem = some st := by
   obtain ⟨t, s, _, hs, hsch, htok, hre⟩ := stems_agree_fp sp puny hpc trie sa sfx h hplain
   refine ⟨s, _, hs, htok, ?_⟩
@@ -569,6 +569,40 @@ example :
       some ["h:fr".toList, "h:lemonde".toList, "p:a%2Fb".toList] ∧
     lruStemsOfUrl (fun _ => none) modelSplit5 false "lemonde.fr/a%2Fb".toList =
       some ["s:http".toList, "h:fr".toList, "h:lemonde".toList, "p:a%2Fb".toList] := by
+  decide +kernel
+
+/-! ## URLs the parser refuses (FX-C07-FPTOTAL), the modelled parser inside -/
+
+/-- **the fingerprint pair on a string the modelled parser refuses** (`fingerprinted_hostname_unparseable`
+with nothing shipped): `fingerprint_url(u)` is `u.lower()` under both `unsplit`, and — `u` needing no
+cleaning and carrying no redirection — `get_fingerprinted_hostname(u)` is `None` exactly when the
+parser reads no host in that result after a scheme is ensured -/
+theorem fingerprinted_hostname_unparseable_string (puny : Str → Str) (trie : SNode Str) (sfx : Bool)
+    (u : Str) (hp : parseUrl (prepared id true (lower u)).1 = none)
+    (hclean : helperString true (lower u) = ensureProtocol (lower u) httpStr) :
+    fingerprintUrlStringSplit puny id trie sfx u = .ok (.inl (lower u)) ∧
+    fingerprintUrlString puny id trie sfx u = .ok (lower u) ∧
+    (getFingerprintedHostname (stringEnv puny id trie) hostOfModel true sfx u = .ok none ↔
+      hostAfterEnsure hostOfModel (lower u) = none) := by
+  have e1 : (stringEnv puny id trie).parse = parseUrl := rfl
+  have e2 : (stringEnv puny id trie).platform = id := rfl
+  have hp' : (stringEnv puny id trie).parse
+      (prepared (stringEnv puny id trie).platform true (lower u)).1 = none := by
+    rw [e1, e2]; exact hp
+  obtain ⟨h1, h2, _, h4⟩ := fingerprinted_hostname_unparseable (stringEnv puny id trie) hostOfModel sfx u hp' hclean
+  exact ⟨by rw [fingerprintUrlStringSplit_eq]; exact h1, by rw [fingerprintUrlString_eq]; exact h2, h4⟩
+
+/-- non-vacuity, both sides of the equivalence: an unbalanced bracket (the helper answers `None`, no
+host in the result) … -/
+example : parseUrl (prepared id true (lower "HTTP://[X/".toList)).1 = none := by decide +kernel
+example : helperString true (lower "HTTP://[X/".toList) = ensureProtocol (lower "HTTP://[X/".toList) httpStr := by
+  decide +kernel
+example : hostAfterEnsure hostOfModel (lower "HTTP://[X/".toList) = none := by decide +kernel
+/-- … and a refused port (a host on both sides) -/
+example : parseUrl (prepared id true (lower "http://a.com:99999/".toList)).1 = none := by decide +kernel
+example : helperString true (lower "http://a.com:99999/".toList) =
+    ensureProtocol (lower "http://a.com:99999/".toList) httpStr := by decide +kernel
+example : hostAfterEnsure hostOfModel (lower "http://a.com:99999/".toList) = some "a.com".toList := by
   decide +kernel
 
 end Ural.Props.C07
